@@ -430,6 +430,12 @@ func (r *Reconciler) selectNodes(logger logr.Logger, daemonset *datadoghqv1alpha
 				continue
 			}
 
+			// A node on which the pod cannot be scheduled is never selected: skip it before it is counted in the
+			// share of its NodeAntiAffinityKeys value.
+			if !scheduler.CheckNodeFitness(logger, newPod, &node) {
+				continue
+			}
+
 			// Ensure that the selected canary nodes are evenly chosen regarding the value of their labels selected by the `NodeAntiAffinityKeys` canary property
 			//
 			// For example, if a cluster has 100 nodes labeled `service=A` and 10 nodes labeled `service=B` and we have to choose 4 canary nodes, we want to choose 2 canary nodes labeled `service=B` and 2 canary nodes labeled `service=B`.
@@ -452,9 +458,7 @@ func (r *Reconciler) selectNodes(logger logr.Logger, daemonset *datadoghqv1alpha
 				antiAffinityKeysValues[antiAffinityKeysValue]++
 			}
 
-			if scheduler.CheckNodeFitness(logger, newPod, &node) {
-				currentNodes = append(currentNodes, node.Name)
-			}
+			currentNodes = append(currentNodes, node.Name)
 			// All nodes are found. We can exit now!
 			if len(currentNodes) == nbCanaryPod {
 				logger.V(1).Info("All nodes were found")
